@@ -90,3 +90,39 @@ package postprocess
 //@   safety none
 //@   loop 0:
 //@     invariant g_rec + g_scan == phi0 + 1
+
+// ----------------------------------------------------------------------------------------------
+// C09: the iteration order of Go maps must not show in a plan. Kernels: every list that is filled while ranging over a
+// map is put into a canonical order (sorted by fetch id / defer id) before it is used to build plan nodes.
+//@ spec sortedInts(s []int) bool = forall a in 0..len(s) :: forall b in 0..len(s) :: a < b ==> s[a] <= s[b]
+
+//@ func sortedCopy
+//@   ensures {a.fresh.sorted.copy} sortedInts(result) && (result == nil || fresh(result)) && len(result) == len(ids)
+//@   modifies *
+
+// every component is sorted by fetch id before it is returned: the breadth-first search ranges over the parent and
+// child maps of the DAG, so the order in which it meets the members depends on the run
+//@ func weaklyConnectedComponents
+//@   ensures {every.component.is.sorted.by.fetch.id} forall i in 0..len(result) :: sortedInts(result[i])
+//@   at call slices.Sort: lemma {sorting.one.component.leaves.the.finished.ones.alone} forall i in 0..len(components) :: sortedInts(components[i])
+//@   at call slices.Sort: lemma {the.new.component.is.sorted} sortedInts(arg0)
+//@   modifies *
+//@   loop 0:
+//@     invariant fresh(components)
+//@     invariant forall i in 0..len(components) :: sortedInts(components[i])
+//@     invariant forall i in 0..len(components) :: allocated(components[i])
+//@   loop 1:
+//@     invariant fresh(components)
+//@     invariant forall i in 0..len(components) :: sortedInts(components[i])
+//@     invariant forall i in 0..len(components) :: allocated(components[i]) && (len(components[i]) > 0 ==> arr(components[i]) != arr(component) && arr(components[i]) != arr(queue))
+//@     invariant allocated(component) && allocated(queue)
+//@   loop 2:
+//@     invariant fresh(components)
+//@     invariant forall i in 0..len(components) :: sortedInts(components[i])
+//@     invariant forall i in 0..len(components) :: allocated(components[i]) && (len(components[i]) > 0 ==> arr(components[i]) != arr(component) && arr(components[i]) != arr(queue))
+//@     invariant allocated(component) && allocated(queue)
+//@   loop 3:
+//@     invariant fresh(components)
+//@     invariant forall i in 0..len(components) :: sortedInts(components[i])
+//@     invariant forall i in 0..len(components) :: allocated(components[i]) && (len(components[i]) > 0 ==> arr(components[i]) != arr(component) && arr(components[i]) != arr(queue))
+//@     invariant allocated(component) && allocated(queue)
